@@ -1071,7 +1071,7 @@ Section Body.
     let* (c, t1) := pop_src ts in
     let* t2 := match_pats [PStr (S "=")] t1 in
     let* (v, t3) := r F_logical_or t2 in
-    Ok (node "ASTUpdateSetColumn" [("column_name", VStr c); ("column_value", v)], t3).
+    Ok (node "ASTUpdateSetColumn" [("column_name", VStr (unify_name c)); ("column_value", v)], t3).
 
   Definition b_update (w : option value) (ts : toks) : PR :=
     let* t1 := match_pats (PS ["UPDATE"]) ts in
